@@ -4,19 +4,19 @@ From Coq.Strings Require Import Byte.
 From OgRek Require Import Base Value Reader Decoder Encoder Norm EncoderFacts RoundTrip.
 Import ListNotations.
 
-(* STATUS.  C03_round_trip is the property for every value in the fragment  norm c v = Some t
-   (Model/Norm.v): None, bool, every int / uint width, *big.Int and big.Int, float32/float64
-   (protocol >= 1), string / named string / unicode / ByteString / Bytes / []byte (protocol >= 1, length < 2^32), Tuple, []any and typed slices / arrays,
-   Class, Call, Ref, pointers, nil - nested to any depth, at every protocol 0..5, both StrictUnicode
-   settings, both PyDict settings, any prior decoder state, any trailing bytes.  t says what comes
-   back: the value itself for canonical values, ByteString as string with StrictUnicode off, the
-   documented normal form for the rest.  Not yet inside the fragment (decided on every run by the
-   correspondence check and the Decode(Encode(v)) oracle instead): maps, Dicts and structs (heap
-   objects), the protocol-0 text forms of strings, floats and persistent ids (so Bytes and []byte at
-   protocol 0, which are built from them).  Bytes at protocols 1-2 (the _codecs.encode(text,
-   'latin1') call, undone by the decoder through Utf8Facts.utf8_runes_latin1) and []byte at
-   protocols 1-4 (the bytearray(Bytes) call under the module name of the announced protocol) are
-   inside. *)
+(* STATUS.  C03_round_trip_partial is the property for every value in the fragment  norm c v = Some t
+   (Model/Norm.v): None, bool, every int / uint width, *big.Int and big.Int, float32 / float64,
+   string / named string / unicode / ByteString / Bytes / []byte, Tuple, []any and typed slices /
+   arrays, Class, Call, Ref, pointers, nil - nested to any depth, at every protocol 0..5 (the
+   protocol-0 text forms included: INT / LONG decimal, S + pyquote, V + raw-unicode-escape, F + %g),
+   both StrictUnicode settings, both PyDict settings, any prior decoder state, any trailing bytes.
+   t says what comes back: the value itself for canonical values, ByteString as string with
+   StrictUnicode off, the documented normal form for the rest.  norm is None exactly for: maps,
+   Dicts and structs (heap objects: decided on every run by the correspondence check and the
+   Decode(Encode(v)) oracle), payloads of 2^32 bytes or more in the counted forms, and the inputs on
+   which Encode returns one of its three documented errors.  The protocol-0 float case carries a
+   computed side condition (Norm.fmtg_ok): the text Go's %g produced - an oracle dumped from the Go
+   runtime - must read back as the same bits. *)
 
 Theorem C03_round_trip_partial : forall c pd v t st rest,
   (0 <= e_proto c <= 5)%Z -> norm c v = Some t ->
